@@ -11,35 +11,53 @@ SP_ASSERTION_NOTE = ('struct-level: the real validateAssertion on an arbitrary u
                      '0..K SubjectConfirmations and AudienceRestrictions, K=2 quick / 3 thorough), arbitrary strings, instants (ms resolution inside the '
                      'message, ns for the clock), tolerances in [0,2^62), 0..2 outstanding IDs, AllowIDPInitiated and the audience hook on/off. ')
 
+FLOW_NOTE = "flow-level: the real ParseXMLResponse, parseResponse, validateRequestID, parseAssertion, validateSignature, getIDPSigningCerts, findChildren/findChild, elementToBytes, unmarshalElement and the etree/etreeutils namespace code executed from SSA on a materialised document (Response with arbitrary response-level fields or valid by construction, 0..2 assertions valid by construction or expired, each element unsigned / signed by the trusted key / signed by an untrusted key). goxmldsig Validate is a contract stub: nil only for a direct-child Signature made over that very element by a key whose certificate is among the context's roots. encoding/xml + etree serialisation are assumed to round-trip the structs. "
+
 CHECKS = {
+    'C01': {
+        'level_text': 'path exploration + z3 decide that ParseXMLResponse returns only an assertion of the document that is covered by a signature of a trusted key (its own, or the Response\'s) and never when the Response carries a signature of an untrusted key; counterexamples replayed natively on real signed XML.',
+        'level_note': FLOW_NOTE + 'Outside: XML-level wrapping that defeats goxmldsig itself, encrypted assertions (until registered), fingerprint / pinned-certificate trust modes (until registered).',
+        'harnesses': [
+            {'name': 'Harness_C01_flow', 'pkg': 'saml', 'replay': 'direct', 'must_reach': ['accepted', 'rejected', 'accepted-by-response-signature', 'accepted-by-assertion-signature'],
+             'opts': {'time_res': 1000000}, 'quick': {'K': 1, 'params': {'assertions.max': 2}}, 'thorough': {'K': 1, 'params': {'assertions.max': 3}}},
+        ],
+    },
     'C02': {
         'level_text': 'z3 decides, for all instants and tolerances at once, that acceptance implies every documented window and that strictly-inside implies acceptance, on the SSA of the real validateAssertion; counterexamples replayed natively.',
-        'level_note': SP_ASSERTION_NOTE + 'Response-level IssueInstant and lexical time forms are covered by the flow harness where registered; time.Parse is library code (outside).',
+        'level_note': SP_ASSERTION_NOTE + FLOW_NOTE + 'Response-level IssueInstant and lexical time forms are covered by the flow harness where registered; time.Parse is library code (outside).',
         'harnesses': [
+            {'name': 'Harness_C02_flow', 'pkg': 'saml', 'replay': 'direct', 'must_reach': ['accepted', 'rejected'],
+             'opts': {'time_res': 1000000}, 'quick': {'K': 1}, 'thorough': {'K': 1}},
             {'name': 'Harness_C02_assertion', 'pkg': 'saml', 'replay': 'direct', 'must_reach': ['accepted', 'rejected', 'accepted-two-confirmations'],
              'opts': {'time_res': 1000000}, 'quick': {'K': 2}, 'thorough': {'K': 3}},
         ],
     },
     'C03': {
         'level_text': 'z3 decides that acceptance implies issuer = IdP entity ID, every Recipient = ACS URL and the audience rule (entity-ID fallback, hook) for all strings at once; replayed natively.',
-        'level_note': SP_ASSERTION_NOTE,
+        'level_note': SP_ASSERTION_NOTE + FLOW_NOTE,
         'harnesses': [
+            {'name': 'Harness_C03_flow', 'pkg': 'saml', 'replay': 'direct', 'must_reach': ['accepted', 'rejected', 'accepted-signed-response'],
+             'opts': {'time_res': 1000000}, 'quick': {'K': 1}, 'thorough': {'K': 1}},
             {'name': 'Harness_C03_assertion', 'pkg': 'saml', 'replay': 'direct', 'must_reach': ['accepted', 'rejected', 'accepted-with-audience'],
              'opts': {'time_res': 1000000}, 'quick': {'K': 2}, 'thorough': {'K': 3}},
         ],
     },
     'C04': {
         'level_text': 'z3 decides that, without IdP-initiated login, acceptance implies every confirmation InResponseTo is one of the outstanding IDs (and that some ID is outstanding); replayed natively.',
-        'level_note': SP_ASSERTION_NOTE,
+        'level_note': SP_ASSERTION_NOTE + FLOW_NOTE,
         'harnesses': [
+            {'name': 'Harness_C04_flow', 'pkg': 'saml', 'replay': 'direct', 'must_reach': ['accepted', 'rejected', 'accepted-with-hook'],
+             'opts': {'time_res': 1000000}, 'quick': {'K': 1}, 'thorough': {'K': 1}},
             {'name': 'Harness_C04_assertion', 'pkg': 'saml', 'replay': 'direct', 'must_reach': ['accepted', 'rejected', 'accepted-with-confirmation'],
              'opts': {'time_res': 1000000}, 'quick': {'K': 2}, 'thorough': {'K': 3}},
         ],
     },
     'C09': {
         'level_text': 'every path of the encoded message-consuming functions is explored with all optional elements nil-able; a path ending in a Go panic is a violation; replayed natively.',
-        'level_note': SP_ASSERTION_NOTE,
+        'level_note': SP_ASSERTION_NOTE + FLOW_NOTE,
         'harnesses': [
+            {'name': 'Harness_C09_flow', 'pkg': 'saml', 'replay': 'direct', 'must_reach': ['returned'],
+             'opts': {'time_res': 1000000, 'panic_is_violation': True}, 'quick': {'K': 1}, 'thorough': {'K': 1}},
             {'name': 'Harness_C09_assertion', 'pkg': 'saml', 'replay': 'direct', 'must_reach': ['returned'],
              'opts': {'time_res': 1000000, 'panic_is_violation': True}, 'quick': {'K': 2}, 'thorough': {'K': 3}},
             {'name': 'Harness_C09_flate', 'pkg': 'saml', 'replay': 'direct', 'must_reach': ['read', 'refused']},
